@@ -74,7 +74,9 @@ def active():
 
 
 def is_sym(x):
-    return isinstance(x, (SymbolicInt, SymbolicBool))
+    # under tracing CrossHair makes isinstance()/type() see symbolics as plain ints
+    with NoTracing():
+        return isinstance(x, (SymbolicInt, SymbolicBool))
 
 
 def unwrap(x):
